@@ -1539,4 +1539,146 @@ mod test {
 #[allow(unused_imports, missing_docs, dead_code, unreachable_pub)]
 pub mod verif {
     use super::*;
+    use crate::daser::verif::VerifMockDaser;
+
+    pub const MAX_PRUNABLE_BATCH_SIZE: u64 = super::MAX_PRUNABLE_BATCH_SIZE;
+
+    /// canonical error kind of a [`PrunerError`]
+    fn kind(e: PrunerError) -> String {
+        match e {
+            PrunerError::P2p(_) => "p2p".into(),
+            PrunerError::Store(StoreError::NotFound) => "store-not-found".into(),
+            PrunerError::Store(_) => "store".into(),
+            PrunerError::Blockstore(_) => "blockstore".into(),
+            PrunerError::Daser(_) => "daser".into(),
+        }
+    }
+
+    /// Public wrapper of the crate-private block-info [`Cache`].
+    #[derive(Default)]
+    pub struct VerifCache(Cache);
+
+    impl VerifCache {
+        pub fn new() -> Self {
+            VerifCache(Cache::default())
+        }
+        /// heights whose `BlockInfo` is currently cached (sorted)
+        pub fn cached_heights(&self) -> Vec<u64> {
+            let mut v: Vec<u64> = self.0.block_info.keys().copied().collect();
+            v.sort();
+            v
+        }
+    }
+
+    pub async fn find_height_after_window<S: Store>(
+        store: &S,
+        stored_headers: &BlockRanges,
+        cutoff: &Time,
+        prev_after_window: Option<u64>,
+        cache: &mut VerifCache,
+    ) -> std::result::Result<Option<u64>, String> {
+        super::find_height_after_window(store, stored_headers, cutoff, prev_after_window, &mut cache.0)
+            .await
+            .map_err(kind)
+    }
+
+    pub async fn find_height_after_window_fast<S: Store>(
+        store: &S,
+        stored_headers: &BlockRanges,
+        cutoff: &Time,
+        prev_after_window: Option<u64>,
+        cache: &mut VerifCache,
+    ) -> std::result::Result<Option<Option<u64>>, String> {
+        super::find_height_after_window_fast(
+            store,
+            stored_headers,
+            cutoff,
+            prev_after_window,
+            &mut cache.0,
+        )
+        .await
+        .map_err(kind)
+    }
+
+    pub async fn find_height_after_window_slow<S: Store>(
+        store: &S,
+        stored_headers: &BlockRanges,
+        cutoff: &Time,
+        cache: &mut VerifCache,
+    ) -> std::result::Result<Option<u64>, String> {
+        super::find_height_after_window_slow(store, stored_headers, cutoff, &mut cache.0)
+            .await
+            .map_err(kind)
+    }
+
+    /// Public wrapper of the crate-private pruner [`Worker`].
+    pub struct VerifPrunerWorker<S: Store + 'static, B: Blockstore + 'static>(Worker<S, B>);
+
+    impl<S: Store + 'static, B: Blockstore + 'static> VerifPrunerWorker<S, B> {
+        /// `Worker::new` with the given mocked `Daser`; returns the worker and the token that stops `run`.
+        pub fn new(
+            daser: &VerifMockDaser,
+            store: Arc<S>,
+            blockstore: Arc<B>,
+            events: &crate::events::EventChannel,
+            block_time: Duration,
+            pruning_window: Duration,
+            sampling_window: Duration,
+        ) -> (Self, CancellationToken) {
+            let token = CancellationToken::new();
+            let worker = Worker::new(
+                PrunerArgs {
+                    daser: daser.0.clone(),
+                    store,
+                    blockstore,
+                    event_pub: events.publisher(),
+                    block_time,
+                    pruning_window,
+                    sampling_window,
+                },
+                token.child_token(),
+            );
+            (VerifPrunerWorker(worker), token)
+        }
+
+        pub async fn get_next_prunable_batch(
+            &mut self,
+            sampling_cutoff: Time,
+            pruning_cutoff: Time,
+        ) -> std::result::Result<BlockRanges, String> {
+            self.0
+                .get_next_prunable_batch(sampling_cutoff, pruning_cutoff)
+                .await
+                .map_err(kind)
+        }
+
+        /// the real `Worker::run` loop (until the token is cancelled or a fatal error)
+        pub async fn run(&mut self) -> std::result::Result<(), String> {
+            self.0.run().await.map_err(kind)
+        }
+
+        /// `(cache.after_sampling_window, cache.after_pruning_window)`
+        pub fn cached_edges(&self) -> (Option<u64>, Option<u64>) {
+            (
+                self.0.cache.after_sampling_window,
+                self.0.cache.after_pruning_window,
+            )
+        }
+
+        pub fn prev_num_of_prunable_blocks(&self) -> u64 {
+            self.0.prev_num_of_prunable_blocks
+        }
+
+        /// Makes the next `update_cached_data` deterministic: `true` = the cached values count as
+        /// just updated (`updated_at = now`), `false` = never updated (`updated_at = None`).
+        pub fn set_cache_fresh(&mut self, fresh: bool) {
+            self.0.cache.updated_at = fresh.then(Instant::now);
+        }
+
+        pub fn cached_heights(&self) -> Vec<u64> {
+            let mut v: Vec<u64> = self.0.cache.block_info.keys().copied().collect();
+            v.sort();
+            v
+        }
+    }
 }
